@@ -276,6 +276,14 @@ impl Property for C13 {
         if let Err(e) = r {
             return fail("encode-error", format!("{} ;; {:?}", e, want));
         }
+        // a writer that takes only part of what it is offered must still receive every byte
+        if src.chance(50) {
+            let max = [1usize, 2, 3, 7, 64][src.below(5)];
+            let mut w = crate::iohelp::ShortWriter { max, vectored: src.chance(128), got: vec![], calls: 0 };
+            let r = ProtobufEncoder::new().encode(&lib, &mut w);
+            ensure!(r.is_ok() && w.got == buf, "bytes-lost-on-short-writes", "a writer accepting at most {} bytes per call got {:?} ({:?}) instead of {:?}", max, w.got, r, buf);
+            rep.class("short-writes");
+        }
         let got = match stream(&buf) {
             Ok(g) => g,
             Err(e) => return fail("undecodable-stream", format!("{} ;; bytes={:?} ;; input={:?}", e, buf, want)),
